@@ -60,7 +60,7 @@ func (zp *ZoneParser) generate(l lex) (RR, bool) {
 	}
 
 	// Create a complete new string, which we then parse again.
-	var s string
+	var sb strings.Builder
 	for l, ok := zp.c.Next(); ok; l, ok = zp.c.Next() {
 		if l.err {
 			return zp.setParseError("bad data in $GENERATE directive", l)
@@ -69,8 +69,9 @@ func (zp *ZoneParser) generate(l lex) (RR, bool) {
 			break
 		}
 
-		s += l.token
+		sb.WriteString(l.token)
 	}
+	s := sb.String()
 
 	r := &generateReader{
 		s: s,
